@@ -1,45 +1,53 @@
 # coding: utf-8
-"""Syntactic frame analysis (census obligations, kind F): which stores of a function can reach an object that
-outlives the call?
+"""Syntactic frame analysis (census obligations, kind F): which stores of a file can reach an object that outlives
+the call, and through which *access path*?
 
 A *store site* is an assignment / deletion through an attribute or a subscript, or a call of a mutating method.
-It is **harmless** when the object written to is
-  * a local name bound only to fresh containers (``{}``, ``[]``, ``dict(...)``, comprehension, ``a + b`` ...) and
-    the container itself is written (``d[k] = v``, ``l.append(x)``), or
-  * ``self`` itself by attribute rebinding (``self.x = v``) -- the caller decides whether that matters
-    (``allow_self_rebind``).
 Plain rebinding of local names is never a store site (renaming or adding locals cannot trip a census).
 
-Every other site is **escaping** and is reported as ``Site(shape, roots, text, lineno)``:
-  * ``roots``: where the written object comes from -- ``self``, ``cls``, ``P<i>`` (i-th parameter after
-    self/cls), ``G:<name>`` (module-level / class name / free variable), ``FRESH`` (via contents of a fresh object),
-    ``?`` (a call result);
-  * ``shape``: the target with names replaced by their role (``self``/``cls``/``P<i>``/``G``/``L``) and
-    constants by ``K`` -- stable under alpha-renaming and under a change of the key that is written.
+The object written to is described by its access path, computed by expanding local aliases:
+
+    references = record.annotations.setdefault("references", [])      ->  P.annotations[K]
+    for feature in record.features: ...                               ->  feature = P.features[*]
+    citations = feature.qualifiers.get("citation", [])                ->  P.features[*].qualifiers[K]
+    citations[i] = x                                                  ->  store  P.features[*].qualifiers[K][*]
+
+  * every parameter is `P` (so a helper extracted from a function, whatever its parameter order, has the same paths),
+    `self` / `cls` keep their role, `type(x)` and `x.__class__` are `cls`, module-level names are `G:<name>`;
+  * a local bound exactly once is replaced by the path of what it is bound to; iteration adds `[*]`;
+    `d.get(k, ...)`, `d.setdefault(k, ...)`, `d[k]` are the same path; constant keys are `K`, other subscripts `*`;
+  * a local bound only to fresh containers (`{}`, `[]`, `dict(...)`, comprehension, `a + b` ...) is `FRESH`: writing
+    the container itself is harmless (it does not outlive the call unless returned -- and then it is the result);
+  * `self.x = v` (rebinding an attribute of the receiver) is harmless where the caller says so.
+
+Every other site is reported as ``Site(shape, root, text, lineno)``; a frame specification is the set of shapes a
+*file* may contain.  Being per file and path-based, it is stable under alpha-renaming, introduced or removed
+temporaries, extracted or inlined helpers and reordered statements; it changes when a store reaches something new.
 """
 from __future__ import annotations
 
 import ast
 from collections import namedtuple
 
-Site = namedtuple("Site", "shape roots text lineno")
+Site = namedtuple("Site", "shape root text lineno")
 
 MUTATORS = {"append", "extend", "insert", "pop", "remove", "clear", "setdefault", "update", "sort", "reverse",
             "popitem", "__setitem__", "__delitem__", "add", "discard", "appendleft", "popleft", "__setattr__",
             "__delattr__", "intersection_update", "difference_update", "symmetric_difference_update"}
 FRESH_CALLS = {"dict", "list", "set", "frozenset", "tuple", "sorted", "str", "int", "bool", "float", "len", "repr",
-               "deepcopy", "copy", "OrderedDict", "intersection", "union", "difference", "keys", "values", "items", "split",
-               "upper", "lower", "strip", "replace", "reverse_complement", "complement", "defaultdict", "Counter", "range", "format", "join", "bytearray"}
-_BUILTIN_FUNCS = {"enumerate", "zip", "iter", "next", "reversed", "map", "filter", "getattr", "isinstance", "issubclass",
-                  "min", "max", "sum", "any", "all", "type", "super", "id", "hash", "print", "vars", "abs"}
+               "deepcopy", "copy", "OrderedDict", "defaultdict", "Counter", "range", "format", "join", "bytearray",
+               "intersection", "union", "difference", "split", "upper", "lower", "strip", "replace",
+               "reverse_complement", "complement"}
+_THROUGH = {"enumerate", "iter", "reversed", "zip", "iteritems", "itervalues", "iterkeys", "items", "values", "keys",
+            "filter", "chain"}
 
 
 def _is_fresh_expr(e):
     if isinstance(e, (ast.Dict, ast.List, ast.Set, ast.ListComp, ast.DictComp, ast.SetComp, ast.Constant, ast.JoinedStr,
-                      ast.Tuple, ast.BinOp, ast.Compare, ast.BoolOp, ast.UnaryOp, ast.Lambda, ast.GeneratorExp)):
-        if isinstance(e, ast.BoolOp):     # `a or []` may be `a`
-            return all(_is_fresh_expr(v) for v in e.values)
+                      ast.Tuple, ast.BinOp, ast.Compare, ast.UnaryOp, ast.Lambda, ast.GeneratorExp)):
         return True
+    if isinstance(e, ast.BoolOp):          # `a or []` may be `a`
+        return all(_is_fresh_expr(v) for v in e.values)
     if isinstance(e, ast.IfExp):
         return _is_fresh_expr(e.body) and _is_fresh_expr(e.orelse)
     if isinstance(e, ast.Call):
@@ -50,34 +58,6 @@ def _is_fresh_expr(e):
         if name and name[:1].isupper() and isinstance(f, ast.Name):   # constructor call Name(...)
             return True
     return False
-
-
-def _names(e):
-    """names an expression's value may be reached from (function names in call position are not data)"""
-    out = set()
-
-    def visit(n, callee=False):
-        if isinstance(n, ast.Name):
-            if not callee:
-                out.add(n.id)
-            return
-        if isinstance(n, ast.Call):
-            if isinstance(n.func, ast.Attribute):
-                visit(n.func.value)
-            elif not isinstance(n.func, ast.Name):
-                visit(n.func)
-            for a in n.args:
-                visit(a.value if isinstance(a, ast.Starred) else a)
-            for k in n.keywords:
-                visit(k.value)
-            return
-        if isinstance(n, ast.Lambda):
-            return
-        for ch in ast.iter_child_nodes(n):
-            visit(ch)
-
-    visit(e)
-    return out
 
 
 class FunctionFrame(object):
@@ -92,67 +72,22 @@ class FunctionFrame(object):
         if is_method and args and "staticmethod" not in decos:
             self.role[args[0]] = "cls" if ("classmethod" in decos or args[0] == "cls") else "self"
             rest = args[1:]
-        for i, a in enumerate(rest):
-            self.role[a] = "P%d" % i
-        extra = [a.arg for a in fnode.args.kwonlyargs]
-        if fnode.args.vararg:
-            extra.append(fnode.args.vararg.arg)
-        if fnode.args.kwarg:
-            extra.append(fnode.args.kwarg.arg)
-        for i, a in enumerate(extra):
-            self.role[a] = "P%d" % (len(rest) + i)
+        for a in rest + [a.arg for a in fnode.args.kwonlyargs] + (
+                [fnode.args.vararg.arg] if fnode.args.vararg else []) + ([fnode.args.kwarg.arg] if fnode.args.kwarg else []):
+            self.role[a] = "P"
         self.allow_self_rebind = allow_self_rebind
         self.globals_declared = set()
-        self.deps = {}      # local -> set of names / "FRESH" / "?"
-        self.content = {}   # local -> names occurring inside the fresh expressions it is bound to
+        self.binds = {}      # local -> [(kind, expr)]  kind in assign | iter | opaque | fresh
         self._collect()
 
     # ------------------------------------------------------------------ bindings
-    def _bind(self, target, value, iterated=False):
+    def _bind(self, target, value, kind):
         if isinstance(target, (ast.Tuple, ast.List)):
             for e in target.elts:
-                self._bind(e.value if isinstance(e, ast.Starred) else e, value, iterated=True)
+                self._bind(e.value if isinstance(e, ast.Starred) else e, value, "iter" if kind == "assign" else kind)
             return
-        if not isinstance(target, ast.Name):
-            return
-        d = self.deps.setdefault(target.id, set())
-        if value is None:
-            d.add("?")
-        elif not iterated and _is_fresh_expr(value):
-            d.add("FRESH")
-            # what a fresh container is built from stays reachable *through* it, but is not the container itself
-            self.content.setdefault(target.id, set()).update(_names(value))
-        else:
-            ns = _names(value)
-            d.update(ns if ns else {"?" if isinstance(value, ast.Call) else "FRESH"})
-            if isinstance(value, ast.Call) and not ns:
-                d.add("?")
-
-    def _collect(self):
-        for n in self._walk(self.f):
-            if isinstance(n, (ast.Global, ast.Nonlocal)):
-                self.globals_declared.update(n.names)
-            elif isinstance(n, ast.Assign):
-                for t in n.targets:
-                    self._bind(t, n.value)
-            elif isinstance(n, ast.AnnAssign) and n.value is not None:
-                self._bind(n.target, n.value)
-            elif isinstance(n, ast.AugAssign):
-                if isinstance(n.target, ast.Name):
-                    # x += y : for lists this mutates x in place -> x keeps its roots, plus y's
-                    self.deps.setdefault(n.target.id, set()).update(_names(n.value))
-            elif isinstance(n, (ast.For, ast.AsyncFor)):
-                self._bind(n.target, n.iter, iterated=True)
-            elif isinstance(n, ast.comprehension):
-                self._bind(n.target, n.iter, iterated=True)
-            elif isinstance(n, (ast.With, ast.AsyncWith)):
-                for it in n.items:
-                    if it.optional_vars is not None:
-                        self._bind(it.optional_vars, it.context_expr, iterated=True)
-            elif isinstance(n, ast.ExceptHandler) and n.name:
-                self.deps.setdefault(n.name, set()).add("FRESH")
-            elif isinstance(n, ast.NamedExpr):
-                self._bind(n.target, n.value)
+        if isinstance(target, ast.Name):
+            self.binds.setdefault(target.id, []).append((kind, value))
 
     def _walk(self, root):
         """ast.walk that does not descend into nested function / class definitions"""
@@ -164,70 +99,114 @@ class FunctionFrame(object):
                 continue
             todo.extend(ast.iter_child_nodes(n))
 
-    def roots(self, name, _seen=None):
-        _seen = _seen or set()
-        if name in _seen:
-            return set()
-        _seen.add(name)
-        if name in self.globals_declared:
-            return {"G:" + name}
-        if name in self.role and name not in self.deps:
-            return {self.role[name]}
-        if name in self.deps:
-            out = set()
-            if name in self.role:       # a re-assigned parameter keeps its original root too
-                out.add(self.role[name])
-            for d in self.deps[name]:
-                if d in ("FRESH", "?"):
-                    out.add(d)
-                else:
-                    out |= self.roots(d, _seen)
-            for d in self.content.get(name, ()):
-                out |= self.roots(d, _seen) - {"FRESH"}
-            return out
-        return {"G:" + name}
+    def _collect(self):
+        for n in self._walk(self.f):
+            if isinstance(n, (ast.Global, ast.Nonlocal)):
+                self.globals_declared.update(n.names)
+            elif isinstance(n, ast.Assign):
+                for t in n.targets:
+                    self._bind(t, n.value, "assign")
+            elif isinstance(n, ast.AnnAssign) and n.value is not None:
+                self._bind(n.target, n.value, "assign")
+            elif isinstance(n, ast.AugAssign):
+                if isinstance(n.target, ast.Name):
+                    self.binds.setdefault(n.target.id, []).append(("opaque", None))
+            elif isinstance(n, (ast.For, ast.AsyncFor)):
+                self._bind(n.target, n.iter, "iter")
+            elif isinstance(n, ast.comprehension):
+                self._bind(n.target, n.iter, "iter")
+            elif isinstance(n, (ast.With, ast.AsyncWith)):
+                for it in n.items:
+                    if it.optional_vars is not None:
+                        self._bind(it.optional_vars, it.context_expr, "opaque")
+            elif isinstance(n, ast.ExceptHandler) and n.name:
+                self.binds.setdefault(n.name, []).append(("fresh", None))
+            elif isinstance(n, ast.NamedExpr):
+                self._bind(n.target, n.value, "assign")
 
-    # ------------------------------------------------------------------ shapes
-    def shape(self, e):
+    # ------------------------------------------------------------------ access paths
+    def path(self, e, depth=0):
+        if depth > 8:
+            return "L"
         if isinstance(e, ast.Name):
-            if e.id in self.globals_declared:
-                return "G"
-            if e.id in self.role:
-                return self.role[e.id]
-            if e.id in self.deps:
+            nm = e.id
+            if nm in self.globals_declared:
+                return "G:" + nm
+            b = self.binds.get(nm)
+            if nm in self.role and not b:
+                return self.role[nm]
+            if b:
+                kinds = {k for (k, _) in b}
+                if kinds <= {"assign", "fresh"} and all(k == "fresh" or _is_fresh_expr(x) for (k, x) in b) and nm not in self.role:
+                    return "FRESH"
+                if len(b) == 1 and nm not in self.role:
+                    kind, expr = b[0]
+                    if kind == "assign":
+                        return self.path(expr, depth + 1)
+                    if kind == "iter":
+                        return self.path(expr, depth + 1) + "[*]"
                 return "L"
-            return "G"
+            return "G:" + nm
         if isinstance(e, ast.Attribute):
-            return "%s.%s" % (self.shape(e.value), e.attr)
+            if e.attr == "__class__":
+                return "cls"
+            return "%s.%s" % (self.path(e.value, depth), e.attr)
         if isinstance(e, ast.Subscript):
-            return "%s[%s]" % (self.shape(e.value), self.shape(e.slice))
-        if isinstance(e, ast.Slice):
-            return ":".join("" if x is None else self.shape(x) for x in (e.lower, e.upper))
-        if isinstance(e, ast.Constant):
-            return "K"
+            return "%s[%s]" % (self.path(e.value, depth), self._key(e.slice))
+        if isinstance(e, ast.Starred):
+            return self.path(e.value, depth)
+        if isinstance(e, ast.IfExp):
+            a, b = self.path(e.body, depth), self.path(e.orelse, depth)
+            return a if a == b or b == "FRESH" else (b if a == "FRESH" else "L")
+        if isinstance(e, ast.BoolOp):
+            ps = [p for p in (self.path(v, depth) for v in e.values) if p != "FRESH"]
+            return ps[0] if len(set(ps)) == 1 else ("FRESH" if not ps else "L")
         if isinstance(e, ast.Call):
-            return "%s()" % self.shape(e.func)
-        if isinstance(e, ast.Tuple):
-            return "(%s)" % ",".join(self.shape(x) for x in e.elts)
+            f = e.func
+            if isinstance(f, ast.Name):
+                if f.id == "type" and len(e.args) == 1:
+                    return "cls"
+                if f.id in _THROUGH and e.args:
+                    return self.path(e.args[0], depth)
+                if f.id in ("getattr",) and len(e.args) >= 2:
+                    return "%s.%s" % (self.path(e.args[0], depth), self._key(e.args[1]))
+                if _is_fresh_expr(e):
+                    return "FRESH"
+                return "?"
+            if isinstance(f, ast.Attribute):
+                if f.attr in ("get", "setdefault") and e.args:
+                    return "%s[%s]" % (self.path(f.value, depth), self._key(e.args[0]))
+                if f.attr in _THROUGH:
+                    base = e.args[0] if (e.args and isinstance(f.value, ast.Name) and f.value.id in ("six", "itertools")) else f.value
+                    return self.path(base, depth)
+                if _is_fresh_expr(e):
+                    return "FRESH"
+                return "?"
+            return "?"
+        if _is_fresh_expr(e):
+            return "FRESH"
         return "E"
 
-    def _expr_roots(self, e):
-        out = set()
-        for n in _names(e):
-            out |= self.roots(n)
-        return out or {"?"}
+    @staticmethod
+    def _key(s):
+        if isinstance(s, ast.Constant):
+            return "K"
+        if isinstance(s, ast.Slice):
+            return ":" if (s.lower is None and s.upper is None) else "*"
+        return "*"
 
-    def _site(self, written_obj, full, lineno, kind):
-        """written_obj: expression denoting the object that is modified; full: the target / call expression"""
-        if isinstance(written_obj, ast.Name):
-            nm = written_obj.id
-            if self.deps.get(nm) == {"FRESH"} and nm not in self.role and nm not in self.globals_declared:
-                return None     # every binding of the name is a fresh container, and the container itself is written
-            if nm in self.role and self.role[nm] == "self" and kind == "attr" and self.allow_self_rebind and nm not in self.deps:
-                return None
-        roots = self._expr_roots(written_obj)
-        shape = ("call:" if kind == "call" else "del:" if kind == "del" else "") + self.shape(full)
-        return Site(shape, frozenset(roots), ast.unparse(full), lineno)
+    @staticmethod
+    def root_of(path):
+        return path.split(".")[0].split("[")[0]
+
+    def _site(self, written_obj, full_path, lineno, kind, text):
+        wp = self.path(written_obj)
+        if wp == "FRESH":
+            return None
+        if wp == "self" and kind == "attr" and self.allow_self_rebind:
+            return None
+        shape = ("call:" if kind == "call" else "del:" if kind == "del" else "") + full_path
+        return Site(shape, self.root_of(wp), text, lineno)
 
     def sites(self):
         out = []
@@ -253,22 +232,22 @@ class FunctionFrame(object):
                     t = t.value
                 if isinstance(t, ast.Name):
                     if t.id in self.globals_declared:
-                        out.append(Site("G", frozenset({"G:" + t.id}), t.id, getattr(t, "lineno", 0)))
+                        out.append(Site("G:" + t.id, "G:" + t.id, t.id, getattr(t, "lineno", 0)))
                     continue
                 if isinstance(t, ast.Attribute):
-                    s = self._site(t.value, t, t.lineno, "attr" if kind == "store" else "del")
+                    s = self._site(t.value, self.path(t), t.lineno, "attr" if kind == "store" else "del", ast.unparse(t))
                 elif isinstance(t, ast.Subscript):
-                    s = self._site(t.value, t, t.lineno, "sub" if kind == "store" else "del")
+                    s = self._site(t.value, self.path(t), t.lineno, "sub" if kind == "store" else "del", ast.unparse(t))
                 else:
                     continue
                 if s is not None:
                     out.append(s)
             if isinstance(n, ast.Call) and isinstance(n.func, ast.Attribute) and n.func.attr in MUTATORS:
-                s = self._site(n.func.value, n.func, n.lineno, "call")
+                s = self._site(n.func.value, "%s.%s" % (self.path(n.func.value), n.func.attr), n.lineno, "call", ast.unparse(n.func))
                 if s is not None:
                     out.append(s)
-            if isinstance(n, ast.Call) and isinstance(n.func, ast.Name) and n.func.id in ("setattr", "delattr") and n.args:
-                s = self._site(n.args[0], n, n.lineno, "call")
+            if isinstance(n, ast.Call) and isinstance(n.func, ast.Name) and n.func.id in ("setattr", "delattr") and len(n.args) >= 2:
+                s = self._site(n.args[0], "%s.%s" % (self.path(n.args[0]), self._key(n.args[1])), n.lineno, "attr", ast.unparse(n))
                 if s is not None:
                     out.append(s)
         return sorted(set(out), key=lambda s: (s.lineno, s.shape))
@@ -291,25 +270,29 @@ def functions_of(modinfo):
     return res
 
 
-def check_frame(modinfo, rel, spec, default=None, allow_self_rebind=True, ignore_roots=()):
-    """spec: qualname -> dict(free={'P0',...}, shapes={...}); default: spec for functions not listed.
-    returns the list of violations as strings (empty = the frame holds)"""
-    bad = []
-    default = default or dict(free=set(), shapes=set())
+def all_sites(modinfo, allow_self_rebind=True, self_rebind_in=None):
+    """[(qualname, Site)] of a file.  self_rebind_in: predicate on the qualname saying where `self.x = v` is harmless
+    (default: everywhere when allow_self_rebind)"""
+    out = []
     for (qual, f, is_m) in functions_of(modinfo):
-        sp = spec.get(qual, default)
-        ff = FunctionFrame(f, is_method=is_m if "<locals>" not in qual else False, allow_self_rebind=sp.get(
-            "allow_self_rebind", allow_self_rebind))
-        for s in ff.sites():
-            if s.shape in sp.get("shapes", ()):
-                continue
-            if s.roots and s.roots <= (set(sp.get("free", ())) | {"FRESH"}):
-                continue
-            if s.roots and all(any(r == g or (g[-1:] in ":*" and r.startswith(g.rstrip("*"))) for g in ignore_roots)
-                               or r == "FRESH" for r in s.roots):
-                continue
-            bad.append("%s::%s line %d: `%s` writes to an object reachable from %s (shape %s)" % (
-                rel, qual, s.lineno, s.text, "/".join(sorted(s.roots)), s.shape))
+        ok = allow_self_rebind if self_rebind_in is None else bool(self_rebind_in(qual))
+        ff = FunctionFrame(f, is_method=is_m if "<locals>" not in qual else False, allow_self_rebind=ok)
+        out.extend((qual, s) for s in ff.sites())
+    return out
+
+
+def check_frame(modinfo, rel, shapes=(), roots=None, allow_self_rebind=True, self_rebind_in=None):
+    """the stores of the file that are outside the frame.
+    shapes: allowed path shapes of the file;  roots: when given, only stores whose root is in this set are of
+    interest (e.g. {'cls', 'G'} for shared state; 'G' stands for every module-level name)."""
+    bad = []
+    for (qual, s) in all_sites(modinfo, allow_self_rebind, self_rebind_in):
+        if s.shape in shapes:
+            continue
+        r = "G" if s.root.startswith("G:") else s.root
+        if roots is not None and r not in roots:
+            continue
+        bad.append("%s::%s line %d: `%s` writes through the path %s" % (rel, qual, s.lineno, s.text, s.shape))
     return bad
 
 
